@@ -6,6 +6,48 @@ import os
 V = os.path.dirname(os.path.dirname(os.path.abspath(__file__)))
 
 CHECKS = {
+    "C04": dict(
+        engine="E1-enumerator",
+        category="fault_enumeration",
+        text="Fault enumeration through the real ConsoleApplication.run (catching on, no terminate, default config): 24 handler return values and 23 exception "
+             "kinds (plain, library, `code` attributes, explicit/implicit chains to depth 3, exec'd code, module whose file was deleted, KeyboardInterrupt) x raise "
+             "point {before output, after stdout write, after stderr write} x every message of <= 2 (thorough 3) fragments over a 12-fragment markup/unicode "
+             "alphabet x verbosity x pre-handle listener {none, passes, handles, raises} x ANSI/plain, plus unknown command/option names carrying the same "
+             "messages. Oracle: nothing escapes run; status int in 0..255, 0 iff falsy result, clamp(int(v),1,255) where defined; every Exception -> non-zero status "
+             "and a non-empty report; the selected handler ran exactly once with freshly parsed args (zero times if a listener handled or raised); no other handler ran.",
+        design_ref="2/C04",
+        note="Trusted: props/_trace.py (fragment alphabet, scratch modules), pastel/crashtest as dependencies. Not demanded: which stream carries the report, its wording, "
+             "the exact non-zero status, SystemExit, a report for KeyboardInterrupt.",
+        technique="bounded-exhaustive fault enumeration on the implementation (all handler outcomes x raise points x messages x listeners within stated bounds)",
+    ),
+    "C11": dict(
+        engine="E1-enumerator",
+        category="model_checking",
+        text="(a) every balanced message forest of <= 3 nodes over the full alphabet and 4 nodes over a reduced one (thorough: 4 and 5) - named, inline and unknown "
+             "tags, literal '<'/'>', newlines, non-ASCII: strip_sgr(ansi.format) == plain.format == remove_format == text known by construction, no ESC and no "
+             "registered markup in plain output, exactly the SGR codes of the styles used; (b) every style 11 fg x 11 bg x 2^7 attributes (thorough 18x18x2^7) "
+             "through style set, add_style and format(style=): exact ECMA-48 code set, text unchanged; (c) every line-writing method found by reflection x receiver "
+             "kind x ANSI/plain: text + exactly one newline; (d) explicit-state BFS over indentation scopes (io/output/error x set/increment x n) left normally or "
+             "by exception, nesting <= 3 (thorough 4), graph closes, plus every pure nesting as real with-statements; (e) escaped '<' in and outside styled spans.",
+        design_ref="2/C11",
+        note="Trusted: own SGR interpreter and ECMA-48 table in props/c11.py, mc/term.strip_sgr, reference indentation stack. Unknown tags may be kept or dropped "
+             "(renderings must agree). Invalid inline colours, upper-case tags and unbalanced messages are outside the alphabet.",
+        technique="bounded-exhaustive enumeration of messages/styles/methods on the implementation plus explicit-state BFS of indentation scopes with a reference stack",
+    ),
+    "C20": dict(
+        engine="E1-enumerator",
+        category="exploration",
+        text="ExceptionTrace.render on the real renderer for exceptions raised from 322 generated source files (file length x failing line position x 28 statement "
+             "shapes incl. multi-line calls, triple-quoted strings, tabs, non-ASCII, markup-like literals) x verbosity x UTF-8 on/off x ignore pattern x ANSI/plain; "
+             "all messages of <= 2 (thorough 3) fragments x exception kinds x simple/full; cause chains to depth 3; recursion (direct, 2-/3-cycles) to depth 60; "
+             "exec'd and source-less code; the Highlighter alone over 126 clikit files + 300 stdlib modules. Oracle: render never raises; class name and message "
+             "(markup aside) present; snippet numbers consecutive, exactly one marker on the failing line, single-line-token lines verbatim; ignored frames absent "
+             "unless debug.",
+        design_ref="2/C20",
+        note="Trusted: the two 'markup aside' normal forms in props/_trace.py (deliberately lenient), Python's tokenizer for the verbatim rule. Three known findings "
+             "(continuation backslash dropped; non-UTF-8 source via crashtest) are listed in known_findings.json.",
+        technique="bounded-exhaustive enumeration of generated sources, messages, chains and recursion depths on the implementation",
+    ),
     "C15": dict(
         engine="E2-explicit-state",
         category="model_checking",
